@@ -216,12 +216,46 @@ def cardinal_cubic(chk):
            file=U.CU, func="cu_basis_funs_1st_der")
     # span search: (x - xmin)/dx, integer part, right end point mapped to the last cell with offset 1
     fs = mod.func("cu_find_span")
-    t = src(fs).replace(" ", "").replace("\n", ";").replace("(", "").replace(")", "")
-    ok = "normalised_pos=x-xmin/dx" in t and "span=intnormalised_pos" in t and "offset=normalised_pos-span" in t and \
-        "ifspan==ncells:;returnspan+2,1.0;else:;returnspan+3,offset" in t.replace(";;", ";")
+    ok, whyspan = None, "span search not extractable"
+    try:
+        exs = SymExec(fs, make_args(fs), calls={})
+        exs.run()
+        ret = exs.ret
+        xs, xmin_s, dx_s, nc_s = (exs.env[k] if k in exs.env else sp.Symbol(k) for k in ("x", "xmin", "dx", "ncells"))
+
+        def pieces(r):
+            """-> [(condition or None, (span, offset))]"""
+            if isinstance(r, (tuple, sp.Tuple)) and len(r) == 2:
+                a_, b_ = r
+                from ..symx import ITE as _ITE
+                if isinstance(a_, _ITE) and isinstance(b_, _ITE) and a_.args[0] == b_.args[0]:
+                    c_ = a_.args[0]
+                    return [(c_, (a_.args[1], b_.args[1])), (sp.Not(c_), (a_.args[2], b_.args[2]))]
+                return [(None, (a_, b_))]
+            from ..symx import ITE as _ITE
+            if isinstance(r, _ITE):
+                c_ = r.args[0]
+                return [(c_, r.args[1]), (sp.Not(c_), r.args[2])]
+            return []
+        ps = [(c_, tuple(v) if isinstance(v, (tuple, sp.Tuple)) else v) for c_, v in pieces(ret)]
+        pos = (xs - xmin_s) / dx_s
+        T = [a_ for a_ in sp.preorder_traversal(ps[0][0] if ps and ps[0][0] is not None else sp.Integer(0))
+             if getattr(a_, "func", None) is not None and str(a_.func) == "toint"]
+        if len(ps) == 2 and all(isinstance(v, tuple) and len(v) == 2 for _, v in ps) and isinstance(ps[0][0], sp.Eq) and T:
+            t_ = T[0]
+            cond = ps[0][0]
+            good_cond = {cond.lhs, cond.rhs} == {t_, nc_s} and sp.simplify(t_.args[0] - pos) == 0
+            (s1, o1), (s2, o2) = ps[0][1], ps[1][1]
+            end_ok = sp.simplify((s1 - (t_ + 2)).subs(nc_s, t_)) == 0 and sp.simplify(o1 - 1) == 0
+            in_ok = sp.simplify(s2 - (t_ + 3)) == 0 and sp.simplify(o2 - (pos - t_)) == 0
+            ok = bool(good_cond and end_ok and in_ok)
+            whyspan = "" if ok else (f"span search returns {ret}: expected (int(p)+3, p-int(p)) with p=(x-xmin)/dx, and (ncells+2, 1) when "
+                                     "int(p) == ncells (right end point evaluated in the last cell)")
+    except (Undecided, KeyError, AttributeError, TypeError) as e:
+        whyspan = f"span search not extractable: {e}"
     chk.ob("F8-uniform-span", fs, "cu_find_span", ok,
            "cell = int((x-xmin)/dx), span = cell+3 (window [span-3, span] = the 4 splines on that cell); at x = xmax the last cell "
-           "is used with offset 1 (span = ncells+2)" if ok else "uniform span search changed", file=U.CU, func="cu_find_span")
+           "is used with offset 1 (span = ncells+2)" if ok else (whyspan or "uniform span search changed"), file=U.CU, func="cu_find_span")
 
 
 def dispatch_and_wrap(chk):
@@ -232,9 +266,20 @@ def dispatch_and_wrap(chk):
         for q, f in m.functions().items():
             sigs[q] = agree.signature(f)
     n = 0
+    COERCIONS = ("np.asarray", "np.atleast_1d", "np.array", "float", "np.float64", "np.ascontiguousarray")
     for q in ("Spline1D.eval", "Spline1D.eval_vector", "Spline2D.eval", "Spline2D.eval_vector"):
         fn = smod.func(q)
         chk.functions.add(f"{U.SPLINES}:{q}")
+        # the evaluation points reach the kernels as given: the spline is evaluated AT x, on the closed domain
+        pts = [a.arg for a in fn.args.args if a.arg in ("x", "x1", "x2")]
+        moved = [n_ for n_ in ast.walk(fn) if isinstance(n_, (ast.Assign, ast.AugAssign)) and
+                 any(isinstance(t_, ast.Name) and t_.id in pts for t_ in (n_.targets if isinstance(n_, ast.Assign) else [n_.target]))
+                 and not (isinstance(n_, ast.Assign) and isinstance(n_.value, ast.Call) and src(n_.value.func) in COERCIONS)]
+        chk.ob("E2-evaluation-point", moved[0] if moved else fn, f"{q}: evaluation points {pts} are not replaced", not moved,
+               "the points handed to the kernels are the caller's points" if not moved else
+               f"`{src(moved[0])[:70]}` replaces the evaluation point before the kernel is called: the value returned is that of the "
+               "piecewise polynomial at another point (e.g. the right end of a periodic domain folded onto the left end takes the left "
+               "end's value and slope, which differ unless the coefficients happen to be wrapped)", file=U.SPLINES, func=q)
         for node, ca, cb in agree.dispatch_sites(fn):
             agree.check_dispatch_site(chk, U.SPLINES, q, node, ca, cb, sigs)
             n += 1
